@@ -158,11 +158,13 @@ prop("C18",
      timing=True,
      quick=[{"re": "^TestC18$", "checks": 3000},
             {"re": "^TestC18Waiters$", "checks": 1500, "shards": 3},
-            {"re": "^TestC18Writers$", "checks": 300}],
+            {"re": "^TestC18Writers$", "checks": 300},
+            {"re": "^TestC18ReadDuringWrite$", "checks": 300, "shards": 2}],
      thorough=[{"re": "^TestC18$", "checks": 300000, "shards": 8, "timeout": 1700},
                {"re": "^TestC18Waiters$", "checks": 100000, "shards": 8, "timeout": 1700},
-               {"re": "^TestC18Writers$", "checks": 100000, "shards": 4, "timeout": 1700}],
-     rule="(concurrent writers, TestC18Writers) 2-4 goroutines issue 2-5 writes each (sizes 1 to ring+5, each filled with a byte value of its own; optionally every partial store write slowed through the hook backlog.VerifSlowWrite): whatever the order, the retained log is a sequence of whole writes - no write's bytes appear in two places. (sequential) rapid state machine over Write(k) (k from 0 to 2*cap+5, so many wrap-arounds), ReadAt(k,o) with o drawn around rpos-3..rpos+3, "
+               {"re": "^TestC18Writers$", "checks": 100000, "shards": 4, "timeout": 1700},
+               {"re": "^TestC18ReadDuringWrite$", "checks": 20000, "shards": 4, "timeout": 1700}],
+     rule="(read during a write, TestC18ReadDuringWrite) two readers keep reading offsets spread over the retained range while one Write larger than the ring is stored piecewise (optionally slowed through the hook): every read that succeeds returns the bytes written at its offset. Waiters also face 4 writes in a row (2-8 readers that read, wait again and must be woken again). (concurrent writers, TestC18Writers) 2-4 goroutines issue 2-5 writes each (sizes 1 to ring+5, each filled with a byte value of its own; optionally every partial store write slowed through the hook backlog.VerifSlowWrite): whatever the order, the retained log is a sequence of whole writes - no write's bytes appear in two places. (sequential) rapid state machine over Write(k) (k from 0 to 2*cap+5, so many wrap-arounds), ReadAt(k,o) with o drawn around rpos-3..rpos+3, "
           "wpos-3..wpos+3, the middle, 0 and random, NewReader, Reader.Read, IsValid, SeekTo (to the current offset, around the range edges), Offset, "
           "DataRange, Close; memory backlogs of 1,2,3,5 alignment units and file backlogs of 1 or 3 x 4 MiB; model = total written + capacity + "
           "position-dependent byte pattern; the caller's buffer is overwritten right after every Write (it owns it again); only calls the model says cannot block are issued, those beyond the write position under a 3 s watchdog. After every call: invalid-offset error iff o > wpos or o+cap < wpos, "
